@@ -96,7 +96,7 @@ def Acts (S : Schema) (P : DNode → Bool) (fx : Fixes) (inh : Option Op) (c : D
 structure Level (S : Schema) (P : DNode → Bool) (T : List DNode) : Prop where
   dom : ∀ c ∈ T, Dom S P c
   nokey : ∀ c ∈ T, S.isKey c.sid = false
-  pw : T.Pairwise (fun a b => matchP S a b = false)
+  pw : T.Pairwise (fun a b => matchP S a b = false ∧ matchP S b a = false)
 
 theorem Level.nil (S : Schema) : Level S P [] := ⟨by simp, by simp, List.Pairwise.nil⟩
 
@@ -105,7 +105,23 @@ theorem Level.tail {S : Schema} {c : DNode} {cs : List DNode} (h : Level S P (c 
     (List.pairwise_cons.mp h.pw).2⟩
 
 theorem Level.head_ne {S : Schema} {c : DNode} {cs : List DNode} (h : Level S P (c :: cs)) :
-    ∀ c' ∈ cs, matchP S c c' = false := (List.pairwise_cons.mp h.pw).1
+    ∀ c' ∈ cs, matchP S c c' = false := fun c' hc' => ((List.pairwise_cons.mp h.pw).1 c' hc').1
+
+theorem Level.head_ne' {S : Schema} {c : DNode} {cs : List DNode} (h : Level S P (c :: cs)) :
+    ∀ c' ∈ cs, matchP S c' c = false := fun c' hc' => ((List.pairwise_cons.mp h.pw).1 c' hc').2
+
+theorem Level.perm {S : Schema} {T T' : List DNode} (hp : T.Perm T') (h : Level S P T) : Level S P T' :=
+  ⟨fun c hc => h.dom c (hp.mem_iff.mpr hc), fun c hc => h.nokey c (hp.mem_iff.mpr hc),
+    (hp.pairwise_iff (fun {_ _} h => ⟨h.2, h.1⟩)).mp h.pw⟩
+
+theorem Level.cons {S : Schema} {c : DNode} {T : List DNode} (h : Level S P T) (hd : Dom S P c) (hk : S.isKey c.sid = false)
+    (h1 : ∀ t ∈ T, matchP S c t = false) (h2 : ∀ t ∈ T, matchP S t c = false) : Level S P (c :: T) :=
+  ⟨fun x hx => by rcases List.mem_cons.mp hx with rfl | hx; exact hd; exact h.dom x hx,
+    fun x hx => by rcases List.mem_cons.mp hx with rfl | hx; exact hk; exact h.nokey x hx,
+    List.Pairwise.cons (fun t ht => ⟨h1 t ht, h2 t ht⟩) h.pw⟩
+
+theorem Level.sublist {S : Schema} {T T' : List DNode} (hs : T'.Sublist T) (h : Level S P T) : Level S P T' :=
+  ⟨fun c hc => h.dom c (hs.subset hc), fun c hc => h.nokey c (hs.subset hc), h.pw.sublist hs⟩
 
 /-- a level of acting nodes applied to a good list: the result instance by instance -/
 theorem acts_list {S : Schema} (K : KeyOrderOn S P) {inh : Option Op} (E : DNode → Option DNode) :
@@ -135,8 +151,7 @@ theorem acts_list {S : Schema} (K : KeyOrderOn S P) {inh : Option Op} (E : DNode
       rw [hloc1 q hq (fun c' hc' => hall c' (List.mem_cons_of_mem _ hc')), hloc q hq (hall c (List.mem_cons_self ..))]
     · intro c' hc'
       rcases List.mem_cons.mp hc' with rfl | hc'
-      · rw [hloc1 c' hcd (fun c'' hc'' =>
-          matchP_false_symm K hcd (hlv.dom c'' (List.mem_cons_of_mem _ hc'')) (hlv.head_ne c'' hc''))]
+      · rw [hloc1 c' hcd (fun c'' hc'' => hlv.head_ne' c'' hc'')]
         exact hval
       · exact hval1 c' hc'
 
@@ -308,7 +323,7 @@ theorem dk_sub (S : Schema) (ld : Bool) (D : List DNode) : ∀ c ∈ dk S ld D, 
 theorem heightL_dk_le (S : Schema) (ld : Bool) (D : List DNode) : heightL (dk S ld D) ≤ heightL D :=
   heightL_le_of_sublist (dk_sub S ld D)
 
-theorem exactK_level {S : Schema} {inh : Option Op} {L : List DNode} : ∀ (ld : Bool) (D : List DNode),
+theorem exactK_level {S : Schema} (K : KeyOrderOn S P) {inh : Option Op} {L : List DNode} : ∀ (ld : Bool) (D : List DNode),
     exactK S P inh L ld D = true → Level S P (dk S ld D)
   | ld, [], _ => by
     have : dk S ld [] = [] := by cases ld <;> simp [dk, noKeys]
@@ -321,11 +336,11 @@ theorem exactK_level {S : Schema} {inh : Option Op} {L : List DNode} : ∀ (ld :
       simp only [Bool.and_eq_true] at hlk
       obtain ⟨rfl, hk⟩ := hlk
       rw [dk_cons_key hk]
-      exact exactK_level true cs h
+      exact exactK_level K true cs h
     · simp only [Bool.and_eq_true] at h
       obtain ⟨⟨⟨hE, _⟩, hdist⟩, hrest⟩ := h
       have hk : S.isKey c.sid = false := (exactE_base hE).2.2
-      have hrec := exactK_level false cs hrest
+      have hrec := exactK_level K false cs hrest
       have hdk0 : dk S false cs = cs := by simp [dk]
       rw [hdk0] at hrec
       rw [dk_cons_nokey hk]
@@ -340,7 +355,8 @@ theorem exactK_level {S : Schema} {inh : Option Op} {L : List DNode} : ∀ (ld :
         · exact hrec.nokey c' hc'
       · refine List.Pairwise.cons ?_ hrec.pw
         intro c' hc'
-        simpa using List.all_eq_true.mp hdist c' hc'
+        have h1 : matchP S c c' = false := by simpa using List.all_eq_true.mp hdist c' hc'
+        exact ⟨h1, matchP_false_symm K (exactE_base hE).1 (hrec.dom c' hc') h1⟩
 
 theorem keysBelow_congr {S : Schema} {c : DNode} {L X : List DNode} (h : normL13 X = normL13 L) (hk : KeysBelow S c L) :
     KeysBelow S c X := by
@@ -388,7 +404,7 @@ theorem exactK_apply {S : Schema} (K : KeyOrderOn S P) {inh : Option Op} {L : Li
     ∃ X1, applyF S fx n hp inh (dk S ld D) X = .ok X1 ∧ goodT S P X1 = true ∧ keysOf S X1 = keysOf S X ∧
       (∀ q, Dom S P q → (∀ c ∈ dk S ld D, matchP S c q = false) → look S X1 q = look S X q) ∧
       ∀ c ∈ dk S ld D, (look S X1 c).map normN = E c := by
-  apply acts_list K E (dk S ld D) (exactK_level ld D hex) n hp X hh hgX
+  apply acts_list K E (dk S ld D) (exactK_level K ld D hex) n hp X hh hgX
   · intro c hc
     exact keysBelow_congr hX (exactK_mem ld D hex c hc).2
   · intro c hc
@@ -425,7 +441,7 @@ theorem listFwd_of_nodes {S : Schema} (K : KeyOrderOn S P) {D : List DNode} (hno
   intro n hp X hh hgX hX
   obtain ⟨X1, hX1, hgX1, hkX1, hlocX, hvalX⟩ := exactK_apply (fx := fx) (hp := hp) K hgL hex hE hh hgX hX
   refine ⟨X1, hX1, hgX1, hkX1, ?_⟩
-  exact normL_eq_of_level K (exactK_level ld D hex).dom hgX1 hgL1 hlocX hlocL hX
+  exact normL_eq_of_level K (exactK_level K ld D hex).dom hgX1 hgL1 hlocX hlocL hX
     (fun c hc => by rw [hvalX c hc, hvalL c hc])
 
 theorem isTerm_of_good_sid {S : Schema} {x c : DNode} (hgx : goodN S P x = true) (hs : x.sid = c.sid) (hd : Dom S P c) :
